@@ -80,6 +80,13 @@ class Ctx:
             i += 1
         if self.tier not in ("quick", "thorough"):
             self.tier = "quick"
+        # --replay <file written by add_violation>: re-run RUN + JUDGE on that one scenario
+        self.replay_scn = None
+        if self.replay:
+            with open(self.replay) as f:
+                rp = json.load(f)
+            self.replay_scn = (rp.get("subject") or {}).get("scenario")
+            self.tier = rp.get("tier", self.tier)
         try:
             self.seed = int(os.environ.get("VERIF_SEED", "1"))
         except ValueError:
@@ -371,8 +378,9 @@ class Ctx:
             "wall_s": wall,
             "violations": len(self.violations),
         }
-        with open(os.path.join(VERIF, "evidence", "%s.json" % self.pid), "w") as f:
-            json.dump(ev, f, indent=1, default=str)
+        if not self.replay:
+            with open(os.path.join(VERIF, "evidence", "%s.json" % self.pid), "w") as f:
+                json.dump(ev, f, indent=1, default=str)
         for d in self.drift[:10]:
             print("DRIFT property=%s %s" % (self.pid, d), flush=True)
         for v in self.violations:
